@@ -28,21 +28,31 @@ theorem bootA_booted (cfg : Cfg) (vol : PImg) (hb : Booted vol) :
   intro x hx _
   exact hidx x hx
 
-/-- the memory `open` has assembled when the log has been scanned (no segments) -/
-def replayMem (b : BootRes) (sc : RScan) : Mem :=
+/-- the memory `open` has assembled when the log has been scanned and the segments are loaded -/
+def replayMem (vol : PImg) (b : BootRes) (sc : RScan) : Mem :=
   { b.m0 with
-    pm := b.ps.pm, catRootM := b.catRoot, catEntries := b.entries, segs := [],
+    pm := b.ps.pm, catRootM := b.catRoot, catEntries := b.entries,
+    segs := sc.segs.map (fun k => (k, segEdges vol k)),
     epoch := sc.epoch, ckpt := sc.ckpt, proot := sc.proot, ptop := sc.ptop,
     nextTxid := max (sc.maxTxid + 1) 1 }
 
 theorem replayA_eq (cfg : Cfg) (vol : PImg) (w : List Frag) (b : BootRes) (cs : List CTx) (ap : List Nat) (rs : List Run)
-    (hcom : committed (readAll w) = .ok cs) (hseg : (scan cs).segs = [])
+    (hcom : committed (readAll w) = .ok cs) (hseg : ∀ k ∈ (scan cs).segs, (segFind vol k).isSome)
     (hplan : planTxs (scan cs).ckpt cs b.m0.exts b.m0.idLen {} = { apply := ap, runs := rs, err := none }) :
     replayA cfg vol w b =
-      [memA (.loaded (replayMem b (scan cs)))] ++
+      [memA (.loaded (replayMem vol b (scan cs)))] ++
         (nodesA cfg b.ps { start := b.m0.idStart, len := b.m0.idLen } ap).1 ++ [memA (.setRuns rs)] := by
   unfold replayA
-  simp [hcom, hseg, hplan, replayMem]
+  have hany : ((scan cs).segs.map (fun k => (k, vol.segs.find? (fun s => s.key == k && s.complete)))).any
+      (fun s => s.2.isNone) = false := by
+    rw [List.any_eq_false]
+    intro x hx
+    obtain ⟨k, hk, rfl⟩ := List.mem_map.mp hx
+    have := hseg k hk
+    simp only [segFind] at this
+    simp [Option.isNone_iff_eq_none, Option.isSome_iff_ne_none.mp this]
+  simp only [hcom, hany, hplan]
+  simp [replayMem, segEdges, segFind, List.map_map, Function.comp]
 
 /-- the replay plan on files that represent `T`: apply exactly the nodes the table does not have yet -/
 theorem plan_of_rep {T : List Tx} {cs : List CTx} {c : Nat} {p : PImg} (hlog : LogOK T cs c)
@@ -78,10 +88,12 @@ theorem open_mem (m1 : Mem) (L : List MemUpd) (rs : List Run) (hid : ∀ u ∈ L
     ((L ++ [MemUpd.setRuns rs]).foldl applyUpd m1).proot = m1.proot ∧
     ((L ++ [MemUpd.setRuns rs]).foldl applyUpd m1).nextTxid = m1.nextTxid ∧
     ((L ++ [MemUpd.setRuns rs]).foldl applyUpd m1).walOpen = m1.walOpen ∧
-    ((L ++ [MemUpd.setRuns rs]).foldl applyUpd m1).tailChecked = m1.tailChecked := by
+    ((L ++ [MemUpd.setRuns rs]).foldl applyUpd m1).tailChecked = m1.tailChecked ∧
+    ((L ++ [MemUpd.setRuns rs]).foldl applyUpd m1).ptop = m1.ptop ∧
+    ((L ++ [MemUpd.setRuns rs]).foldl applyUpd m1).epoch = m1.epoch := by
   simp only [List.foldl_append, List.foldl_cons, List.foldl_nil]
   rw [foldl_idUpd _ hid]
-  exact ⟨rfl, rfl, rfl, rfl, rfl, rfl, rfl, rfl, rfl, rfl⟩
+  exact ⟨rfl, rfl, rfl, rfl, rfl, rfl, rfl, rfl, rfl, rfl, rfl, rfl⟩
 
 /-- **recovery is crash-safe and complete**: on flat files representing `T`, every prefix of the
     I/O steps of `open` leaves every crash image representing `T`; `open` succeeds and the handle
@@ -96,19 +108,19 @@ theorem open_safe {cfg : Cfg} {T : List Tx} {fs : FS} (hsync : cfg.syncSlot = tr
       ((memUpds (openA cfg fs.pv fs.wf)).foldl applyUpd {}).tailChecked = false := by
   have hpv : fs.pv = fs.pd := by simp [FS.pv, hpj, applyEffs]
   rw [hpv]
-  obtain ⟨cs, c, hcom, hlog, hp⟩ := hrep
+  obtain ⟨cs, c, hcom, hlog, hp, hst⟩ := hrep
   obtain ⟨es, hcat, hboot⟩ := bootA_booted cfg fs.pd hp.booted
   obtain ⟨hexts, hplan⟩ := plan_of_rep hlog hp
   -- the action list
   have hopen : openA cfg fs.pd fs.wf =
       [memA (.setPm fs.pd.hdr), memA (.loaded (bootMem fs.pd)), memA (.catalog fs.pd.hdr.catRoot es)] ++
-      ([memA (.loaded (replayMem (bootedRes fs.pd es) (scan cs)))] ++
+      ([memA (.loaded (replayMem fs.pd (bootedRes fs.pd es) (scan cs)))] ++
         (nodesA cfg { pm := fs.pd.hdr, len := fs.pd.len } { start := fs.pd.hdr.i2eStart, len := fs.pd.hdr.i2eLen }
           ((allNodes T).drop fs.pd.hdr.i2eLen)).1 ++ [memA (.setRuns (logRuns (scan cs).ckpt cs))]) := by
     unfold openA
     rw [hboot]
     simp only
-    rw [replayA_eq cfg fs.pd fs.wf _ cs _ _ hcom hlog.nosegs hplan]
+    rw [replayA_eq cfg fs.pd fs.wf _ cs _ _ hcom hst.segs hplan]
     rfl
   -- node application from the durable node table
   have hl : fs.pd.hdr.i2eLen ≤ (allNodes T).length := hp.hi
@@ -117,19 +129,20 @@ theorem open_safe {cfg : Cfg} {T : List Tx} {fs : FS} (hsync : cfg.syncSlot = tr
     rw [hpj] at himg
     rw [isImg_nil _ _ himg]
     exact ⟨Frame.refl _, hp.start, hp.lo, Nat.le_refl _, hp.slots⟩
+  have hin : Inert fs.pj := by rw [hpj]; exact inert_nil
   have hpm : OKhdr c fs.pd fs.pd.hdr.i2eLen fs.pd.hdr := ⟨rfl, rfl, hp.start, hp.lo, Nat.le_refl _, Nat.le_refl _⟩
   have hnp : 1 ≤ fs.pd.hdr.nextPage := by have := hp.booted.nextPage; omega
   have hdrop : (allNodes T).drop fs.pd.hdr.i2eLen = (allNodes T).drop fs.pd.hdr.i2eLen ++ [] := by simp
   have sa := node_phase (cfg := cfg) (T := T) (cs := cs) (c := c) (k := fs.pd.hdr.i2eLen) hp.booted hsync fs
     { pm := fs.pd.hdr, len := fs.pd.len } { start := fs.pd.hdr.i2eStart, len := fs.pd.hdr.i2eLen }
-    ((allNodes T).drop fs.pd.hdr.i2eLen) [] hq hcom hlog hdrop hB ⟨hpj, rfl⟩ hpm rfl rfl rfl hnp hp.lo hl
+    ((allNodes T).drop fs.pd.hdr.i2eLen) [] hq hcom hlog hst hdrop hB ⟨hin, rfl⟩ hpm rfl rfl rfl hnp hp.lo hl
   obtain ⟨nf, _, hBF, hSF, _, lenF, _, idsF, _⟩ :=
     nodesA_safe (cfg := cfg) (N := allNodes T) (c := c) (p0 := fs.pd) hp.booted hsync ((allNodes T).drop fs.pd.hdr.i2eLen)
       fs.pd.hdr.i2eLen fs { pm := fs.pd.hdr, len := fs.pd.len } { start := fs.pd.hdr.i2eStart, len := fs.pd.hdr.i2eLen } []
-      hdrop hB ⟨hpj, rfl⟩ hpm rfl rfl rfl hnp hp.lo hl
+      hdrop hB ⟨hin, rfl⟩ hpm rfl rfl rfl hnp hp.lo hl
   have hMF := memFacts_nodesA (cfg := cfg) (N := allNodes T) (c := c) (p0 := fs.pd) hp.booted hsync ((allNodes T).drop fs.pd.hdr.i2eLen)
       fs.pd.hdr.i2eLen fs { pm := fs.pd.hdr, len := fs.pd.len } { start := fs.pd.hdr.i2eStart, len := fs.pd.hdr.i2eLen } []
-      hdrop hB ⟨hpj, rfl⟩ hpm rfl rfl rfl hnp hp.lo hl
+      hdrop hB ⟨hin, rfl⟩ hpm rfl rfl rfl hnp hp.lo hl
   obtain ⟨_, hpg⟩ := (pagerActs_nodes cfg ((allNodes T).drop fs.pd.hdr.i2eLen) { pm := fs.pd.hdr, len := fs.pd.len }
     { start := fs.pd.hdr.i2eStart, len := fs.pd.hdr.i2eLen }).facts
   have hio : ioSteps (openA cfg fs.pd fs.wf) =
@@ -146,7 +159,7 @@ theorem open_safe {cfg : Cfg} {T : List Tx} {fs : FS} (hsync : cfg.syncSlot = tr
     rfl
   have hmu : memUpds (openA cfg fs.pd fs.wf) =
       [MemUpd.setPm fs.pd.hdr, .loaded (bootMem fs.pd), .catalog fs.pd.hdr.catRoot es,
-        .loaded (replayMem (bootedRes fs.pd es) (scan cs))] ++
+        .loaded (replayMem fs.pd (bootedRes fs.pd es) (scan cs))] ++
       (memUpds (nodesA cfg { pm := fs.pd.hdr, len := fs.pd.len } { start := fs.pd.hdr.i2eStart, len := fs.pd.hdr.i2eLen }
         ((allNodes T).drop fs.pd.hdr.i2eLen)).1 ++ [MemUpd.setRuns (logRuns (scan cs).ckpt cs)]) := by
     rw [hopen]
@@ -162,42 +175,50 @@ theorem open_safe {cfg : Cfg} {T : List Tx} {fs : FS} (hsync : cfg.syncSlot = tr
     simp; omega
   have hNGF := hBF _ (isImg_pd _ _)
   have h4 : ([MemUpd.setPm fs.pd.hdr, .loaded (bootMem fs.pd), .catalog fs.pd.hdr.catRoot es,
-        .loaded (replayMem (bootedRes fs.pd es) (scan cs))] : List MemUpd).foldl applyUpd {} =
-      replayMem (bootedRes fs.pd es) (scan cs) := rfl
+        .loaded (replayMem fs.pd (bootedRes fs.pd es) (scan cs))] : List MemUpd).foldl applyUpd {} =
+      replayMem fs.pd (bootedRes fs.pd es) (scan cs) := rfl
   rw [List.foldl_append, h4]
-  generalize hm1 : replayMem (bootedRes fs.pd es) (scan cs) = m1
+  generalize hm1 : replayMem fs.pd (bootedRes fs.pd es) (scan cs) = m1
   have e_pm : m1.pm = fs.pd.hdr := by rw [← hm1]; rfl
   have e_st : m1.idStart = fs.pd.hdr.i2eStart := by rw [← hm1]; rfl
   have e_len : m1.idLen = fs.pd.hdr.i2eLen := by rw [← hm1]; rfl
   have e_exts : m1.exts = (allNodes T).take fs.pd.hdr.i2eLen := by rw [← hm1]; exact hexts
-  have e_segs : m1.segs = [] := by rw [← hm1]; rfl
+  have e_segs : m1.segs = (scan cs).segs.map (fun k => (k, segEdges fs.pd k)) := by rw [← hm1]; rfl
+  have e_ptop : m1.ptop = (scan cs).ptop := by rw [← hm1]; rfl
+  have e_epoch : m1.epoch = (scan cs).epoch := by rw [← hm1]; rfl
   have e_root : m1.proot = (scan cs).proot := by rw [← hm1]; rfl
   have e_tx : m1.nextTxid = max ((scan cs).maxTxid + 1) 1 := by rw [← hm1]; rfl
   have e_wal : m1.walOpen = true := by rw [← hm1]; rfl
   have e_tc : m1.tailChecked = false := by rw [← hm1]; rfl
-  obtain ⟨o1, o2, o3, o4, o5, o6, o7, o8, o9, o10⟩ := open_mem m1 _ (logRuns (scan cs).ckpt cs) hMF.idupd
+  obtain ⟨o1, o2, o3, o4, o5, o6, o7, o8, o9, o10, o11, o12⟩ := open_mem m1 _ (logRuns (scan cs).ckpt cs) hMF.idupd
   generalize (memUpds (nodesA cfg { pm := fs.pd.hdr, len := fs.pd.len } { start := fs.pd.hdr.i2eStart, len := fs.pd.hdr.i2eLen }
       ((allNodes T).drop fs.pd.hdr.i2eLen)).1 ++ [MemUpd.setRuns (logRuns (scan cs).ckpt cs)]).foldl applyUpd m1 = mF
-    at o1 o2 o3 o4 o5 o6 o7 o8 o9 o10
+    at o1 o2 o3 o4 o5 o6 o7 o8 o9 o10 o11 o12
   have hpmL : lastPm (memUpds (nodesA cfg { pm := fs.pd.hdr, len := fs.pd.len } { start := fs.pd.hdr.i2eStart, len := fs.pd.hdr.i2eLen }
       ((allNodes T).drop fs.pd.hdr.i2eLen)).1) fs.pd.hdr = _ := hMF.pm
   have hstL : lastStart (memUpds (nodesA cfg { pm := fs.pd.hdr, len := fs.pd.len } { start := fs.pd.hdr.i2eStart, len := fs.pd.hdr.i2eLen }
       ((allNodes T).drop fs.pd.hdr.i2eLen)).1) fs.pd.hdr.i2eStart = _ := hMF.start
   constructor
-  · refine { pj := hSF.1, quiet := ⟨by rw [hdF, hwF]; exact hq.wdur, by rw [hrF]; exact hq.ren⟩,
-             com := by rw [hwF]; exact hcom, log := hlog,
+  · have hFr : Frame fs.pd fsF.pd := hNGF.frame
+    refine { pj := hSF.1,
+             wal := WalStable.of_quiet ⟨by rw [hdF, hwF]; exact hq.wdur, by rw [hrF]; exact hq.ren⟩ (by rw [hwF]; exact hcom),
+             log := hlog,
              pager := hNGF.pagerOK hp.booted (by rw [hlenN]; exact Nat.le_refl _),
+             store := hFr.store hst,
              full := ?_, mpm := ?_, mlen := ?_, mstart := ?_, mexts := ?_, mruns := o5, msegs := ?_, mroot := ?_,
-             mtxid := ?_, mwal := ?_ }
+             mptop := ?_, mepoch := ?_, mtxid := ?_, mwal := ?_ }
     · rw [hSF.2, lenF, hlenN]
     · rw [o1, e_pm, hpmL, hSF.2]
     · rw [o3, e_len, hMF.inc, hlenN]
     · rw [o2, e_st, hstL, idsF, hSF.2]
     · rw [o4, e_exts, hMF.push, List.take_append_drop]
     · rw [o6, e_segs]
-    · rw [o7, e_root, hlog.noroot]
+      have : segEdges fsF.pd = segEdges fs.pd := by funext k; simp [segEdges, segFind, hFr.segs]
+      rw [this]
+    · rw [o7, e_root]
+    · rw [o11, e_ptop]
+    · rw [o12, e_epoch]
     · rw [o8, e_tx]
-      have := hlog.ckptle
       omega
     · rw [o9, e_wal]
   · rw [o10, e_tc]
